@@ -194,6 +194,16 @@ def generate(rng, tier):
             yield Case(op, [hx(sgn(rng, a))])
         else:
             yield Case(op, [hx(a)])
+    # ---- power-of-two tests with exactly one non-zero word below a power-of-two top word (every position),
+    #      and the same operands for next_power_of_two / trailing scans / count_zeros
+    for nw in (3, 4, 5):
+        for i in range(nw - 1):
+            top = 1 << (W * (nw - 1) + rng.randrange(0, W))
+            low = rng.choice([1, 1 << 63, M, rng.getrandbits(W) | 1]) << (W * i)
+            for op in ("u.ispow2", "u.nextpow2", "u.tz", "u.to", "u.countzeros", "u.countones", "u.bitlen"):
+                yield Case(op, [hx(top | low)])
+            yield Case("u.ispow2", [hx(top)]); yield Case("u.nextpow2", [hx(top)])
+            yield Case("i.to", [hx(-(top | low))]); yield Case("i.tz", [hx(-(top | low))])
     # ---- ones(n)
     for n in sorted(set([0, 1, 2, 63, 64, 65, 127, 128, 129, 191, 192, 193, 255, 256, 257, 1000, 4096]
                         + [rng.randrange(0, 700) for _ in range(20 if quick else 400)])):
@@ -273,6 +283,9 @@ THEOREMS = ["Dashu.Props.C09." + n for n in [
 USES_GEN = True
 GEN_PROPS = ["Dashu.Props.GenBits"]
 GEN_AUDIT = ["Dashu.Audit.GenBits"]
+# Tie A, typed translator: the sign handling of `IBig >> usize` (rounding toward −∞) regenerated from shift_ops.rs = floor shift
+GEN_PROPS += ["Dashu.Props.GenIntOps"]
+GEN_AUDIT += ["Dashu.Audit.GenIntOps"]
 
 LEVEL_TEXT = ("Machine-checked Lean 4 theorems, for every word size and operand length, that the sign-case tables of & | ^ ! "
               "(also as regenerated from integer/src/bits.rs on every run) "
